@@ -252,3 +252,12 @@ Definition spec_violations_c02u (cs : list ncase) : list nat :=
   find_idx (fun c => negb (nspec_ok (if case_user c then fl_c02_graph else fl_c02) c)) cs.
 Definition known_c02_user (cs : list ncase) : list nat :=
   find_idx (fun c => case_user c && nspec_ok fl_c02_graph c && negb (nspec_ok fl_c02 c)) cs.
+
+(* ---------- C16 and the set_state loop ---------- *)
+(* a run that ends in Crash OutOfFuel is the set_state loop not terminating (the drivers raise after 40 evaluations):
+   known finding "set-state-livelock" (STRICT or LIST satisfied while CORE fails, RESYNC strategy) *)
+Definition ends_out_of_fuel (c : ncase) : bool :=
+  match c with (_, _, obss) => match rev obss with NCrash OutOfFuel :: _ => true | _ => false end end.
+Definition spec_violations_c16k (cs : list ncase) : list nat :=
+  find_idx (fun c => negb (nspec_ok fl_c16 c) && negb (ends_out_of_fuel c)) cs.
+Definition known_c16_livelock (cs : list ncase) : list nat := find_idx ends_out_of_fuel cs.
